@@ -6,6 +6,7 @@ has them (`AddWithOverflow`+`assert`), Booleans are z3 Bools.  Library calls are
 small models (see `LIB`); an unknown callee aborts the run (`Unsupported`).
 """
 import itertools
+import time
 import re
 import z3
 
@@ -23,6 +24,7 @@ def B(v):
 
 
 UNIT = ("opaque", "unit")
+SOLVER_STATS = {"time": 0.0, "queries": 0}  # wall time inside z3 check() calls of the static obligations and path pruning
 
 
 class Outcome:
@@ -90,7 +92,10 @@ class Executor:
             self.solver.add(*self.base_constraints)
             self.solver.add(*st.pc)
             self.solver.add(extra)
+            _t = time.time()
             r = self.solver.check()
+            SOLVER_STATS["time"] += time.time() - _t
+            SOLVER_STATS["queries"] += 1
             if r == z3.unknown:
                 raise Unsupported("solver returned unknown on a path-feasibility query")
             return r == z3.sat
